@@ -297,7 +297,7 @@ PROPS["C02"] = dict(
 
 PROPS["C17"] = dict(
     level="fault_enumeration",
-    technique="runtime fault enumeration: the C02 corruption family replayed against every classic open function with sentinel-filled caller buffers; oracle = after Err every output byte is its pre-call value or zero and the stream tag variable is untouched",
+    technique="runtime fault enumeration: the C02 corruption family replayed against every classic open function with sentinel-filled caller buffers; oracle = after Err every output byte is its pre-call value or zero, the stream tag variable is untouched, and the error text does not vary with the rejected bytes",
     level_text="Same exhaustive single-corruption family as C02; after every rejected open the caller-visible message buffer (copying forms: pre-filled with a zero-free sentinel; in-place forms: the "
                "tampered input itself) and the stream tag output are inspected byte by byte under the most permissive reading of 'left as they were or zeroed'.",
     level_note="A leaked keystream-XORed byte escapes the per-byte test only if it happens to equal the sentinel byte or zero (probability 2/256 per byte); over the enumerated family a leak of any length is caught essentially always.",
@@ -821,7 +821,7 @@ def _c16_floors(m, tier):
                "SigningKeyPair<Stack,Stack>", "KeyPair<Stack,Stack>", "KeyPair<Vec,Vec>", "Session<Stack>", "Kdf<Stack,Stack>", "PwHash<Vec,Vec>",
                "DryocSecretBox<Stack,HeapBytes>", "LockedBox(secretbox)<Locked<Heap16>,LockedBytes>", "LockedKeyPair", "LockedSigningKeyPair", "LockedSignedMessage",
                "LockedKdf", "LockedPwHash", "LockedSession"]:
-        for fmt in ("json", "bincode"):
+        for fmt in ("json", "bincode", "json_reader", "bincode_reader"):
             if "%s|%s" % (ty, fmt) not in rt:
                 out.append("serde round trip never run: %s via %s" % (ty, fmt))
     wl = m.cov.get("wrong_length_path", {})
@@ -834,7 +834,7 @@ def _c16_floors(m, tier):
 
 PROPS["C16"] = dict(
     level="exploration",
-    technique="runtime round-trip and fault-family monitoring: every object type x container is encoded and decoded through to_bytes/from_bytes, into_parts/from_parts, serde_json and bincode and compared (and must still decrypt/verify; wire layout compared with libsodium); fixed-length types are fed every element count 0..=2N through both serde visitor paths and TryFrom",
+    technique="runtime round-trip and fault-family monitoring: every object type x container is encoded and decoded through to_bytes/from_bytes, into_parts/from_parts, serde_json and bincode (from a slice and from an io::Read source) and compared (and must still decrypt/verify; wire layout compared with libsodium); fixed-length types are fed every element count 0..=2N through both serde visitor paths and TryFrom",
     level_text="Boxes (plain and sealed), secret boxes, signed messages, key pairs, sessions, KDFs and password hashes with stack, Vec, heap, locked and read-only-locked containers are round-tripped for every "
                "payload length 0..=130 (quick) / 0..=600 (thorough); for each fixed-length array type (16/24/32/64 bytes, stack and locked-heap) every element count 0..=2N is presented as a JSON array (element-sequence path), "
                "a bincode byte string (byte-string path), through serde's value deserializers and through TryFrom / from_slices, and must be rejected unless the count is exactly N. "
